@@ -11,7 +11,7 @@ Theorem C17_from_api_total :
 Proof.
   intros v6r x t; destruct x; cbn [from_api]; try discriminate.
   - destruct (255 <? ty); [discriminate|].
-    destruct (canonical_flags ty); [destruct (65535 <? _); discriminate|].
+    destruct (canonical_flags ty); [destruct (65535 <? _); [discriminate|]; destruct (_ && _); discriminate|].
     destruct (_ && _); discriminate.
   - destruct (2 <? o); discriminate.
   - destruct (forallb seg_ok segs); discriminate.
